@@ -30,6 +30,12 @@ func defsC02(tier string) []*ph.Def {
 							Cmds: []*ph.CmdDef{{Name: "c"}},
 						}}
 						out = append(out, d)
+						// SetMapKeysToLower: spellings of one key that differ in case are one key, the last one on the command line wins
+						if kind == ph.Map && b[1] == 3 && b[0] == 1 && !ro {
+							d2 := *d
+							d2.MapLower = true
+							out = append(out, &d2)
+						}
 					}
 				}
 			}
@@ -46,7 +52,7 @@ func init() {
 			"distinct_nontrivial = distinct (definition, argv) cases inside the specified territory",
 		defs:     defsC02,
 		alpha:    []string{"a", "5", "1.5", "k=v", "k=a=b", "=v", "1..3", "3..1", "", "-", "--", "--x", "-5", "c", "--m", "--m=a", "--m=5", "--m=k=v", "--m=k=w=z", "--m=1..3", "-m", "--zz"},
-		alphaExt: []string{"010", "08", "007..010", "--m=010", "0x1F", "1e2", "+5", "1_0", "-mx", "-xm", "--m=-2..1", "+1..+3", "-ñ", "-ñ=a", "-xñ", "--m=a,b", "a,b", "--m=k=a,b", "--m=1,2"}, // numerals on which Go's decimal conversion and other readings (octal, hex, float) disagree; bundles in which the multi-value letter is not the last one; signed range ends
+		alphaExt: []string{"010", "08", "007..010", "--m=010", "0x1F", "1e2", "+5", "1_0", "-mx", "-xm", "--m=-2..1", "+1..+3", "-ñ", "-ñ=a", "-xñ", "--m=a,b", "a,b", "--m=k=a,b", "--m=1,2", "K=a", "k=b", "--m=K=c"}, // numerals on which Go's decimal conversion and other readings (octal, hex, float) disagree; bundles in which the multi-value letter is not the last one; signed range ends
 		depthQ:   4, depthT: 4,
 		facets: ph.Facets{Err: true, ErrDetail: true, Remaining: true, Vals: true, Called: true, CalledAs: true},
 		extra: func(pc *parserCase, info specInfo) ([]string, []string) {
@@ -102,7 +108,7 @@ func init() {
 			return ds
 		},
 		alpha:    []string{"--zz", "-z", "-az", "-zy", "--zz=1", "--a", "--s", "v", "c", "w", "p", "--", "--d"},
-		alphaExt: []string{"--help", "--m", "k=v", "--li", "5", "-1"}, // help requested next to an unknown option; unknown options that look like a well-formed element behind a multi-value option
+		alphaExt: []string{"--help", "--m", "k=v", "--li", "5", "-1", "--A", "-S"}, // ... a known name in the wrong case is an unknown option // help requested next to an unknown option; unknown options that look like a well-formed element behind a multi-value option
 		depthQ:   5, depthT: 6,
 		facets: ph.AllFacets,
 		extra: func(pc *parserCase, info specInfo) ([]string, []string) {
@@ -130,10 +136,17 @@ func init() {
 				d.Root.Cmds[0].RequireOrder = true
 				ds = append(ds, d)
 			}
+			// a program without a function of its own (a pure command container): the first argument is still handed over
+			for _, d := range configs(defC09, []bool{true}) {
+				if d.Mode == 0 {
+					d.Root.NoFn = true
+					ds = append(ds, d)
+				}
+			}
 			return ds
 		},
 		alpha:    []string{"--a", "--s", "v", "--so", "--l", "c", "p", "-", "--zz", "--", "-az", "--d"},
-		alphaExt: []string{"dep", "deploy", "--force", "-=x", "--=x", "e", "--late", "", "w", "--qu"}, // the unique beginning of a command name is not the command; dashes followed by `=` name no option; a sub-command below the command that sets require-order; the empty string
+		alphaExt: []string{"dep", "deploy", "--force", "-=x", "--=x", "e", "--late", "", "w", "--qu", "--so=x"}, // the unique beginning of a command name is not the command; dashes followed by `=` name no option; a sub-command below the command that sets require-order; the empty string
 		depthQ:   5, depthT: 6,
 		facets: ph.AllFacets,
 		extra: func(pc *parserCase, info specInfo) ([]string, []string) {
